@@ -77,8 +77,16 @@ macro_rules! dispatch {
                 let $p = &props::scan::C13;
                 $body
             }
+            "C13t" => {
+                let $p = &props::scan::C13Loop;
+                $body
+            }
             "C16" => {
                 let $p = &props::scan::C16;
+                $body
+            }
+            "C16t" => {
+                let $p = &props::scan::C16Loop;
                 $body
             }
             "C10" => {
@@ -123,8 +131,8 @@ fn components(property: &str) -> Vec<&'static str> {
         "C09" => vec!["C09p", "C09r"],
         "C10" => vec!["C10"],
         "C11" => vec!["C11"],
-        "C13" => vec!["C13"],
-        "C16" => vec!["C16"],
+        "C13" => vec!["C13", "C13t"],
+        "C16" => vec!["C16", "C16t"],
         "C14" => vec!["C14r", "C14w", "C14s"],
         _ => vec![],
     }
@@ -919,9 +927,9 @@ fn hang_check(comp: &str) -> Option<&'static str> {
         "C09p" | "C09r" => Some("C09.hang"),
         "C10" => Some("C10.hang"),
         "C11" => Some("C11.hang"),
-        "C13" => Some("C13.hang"),
+        "C13" | "C13t" => Some("C13.hang"),
         "C14r" | "C14w" | "C14s" => Some("C14.hang"),
-        "C16" => Some("C16.hang"),
+        "C16" | "C16t" => Some("C16.hang"),
         _ => None,
     }
 }
@@ -931,7 +939,7 @@ fn hang_check(comp: &str) -> Option<&'static str> {
 fn cmd_selftest() -> i32 {
     let seed = seed_from_env();
     let mut bad = 0;
-    for comp in ["C01", "C02", "C04", "C08", "C09p", "C09r", "C10", "C11", "C13", "C14r", "C14w", "C14s", "C16"] {
+    for comp in ["C01", "C02", "C04", "C08", "C09p", "C09r", "C10", "C11", "C13", "C13t", "C14r", "C14w", "C14s", "C16", "C16t"] {
         let runs = if comp == "C10" { 48 } else if comp == "C04" { 2_000 } else { 40_000 };
         let mut res = vec![];
         for threads in [1usize, 16, 5] {
